@@ -44,6 +44,10 @@ def affected_test_files(patch_path):
         r = json.loads(ln)
         if r["error"] or patched & set(r["modules"]) or any(f"test/unit/{s_}/" in r["file"] for s_ in sub) or r["file"].startswith("test/install"):
             files.add(r["file"])
+    if any(f.startswith("test/install/test_no_ml") for f in files):
+        # test_no_library[auto|torch] pass only in a session that has also collected test/unit/adversarial/test_adversarial_mitigation.py (collection-order
+        # dependence of the repository's suite, present on the unmodified tree): keep the two together as in the full run
+        files.add("test/unit/adversarial/test_adversarial_mitigation.py")
     return sorted(files), sorted(patched)
 
 
@@ -72,13 +76,13 @@ def main():
     ap.add_argument("--suite", action="store_true")
     ap.add_argument("--checks", default=None)
     ap.add_argument("--tier", default="quick")
-    ap.add_argument("--phase", default="all", choices=["all", "suite", "checks"], help="suite: patch/demo/test-suite only; checks: only run the checks (merges into eval.json)")
+    ap.add_argument("--phase", default="all", choices=["all", "suite", "checks", "noml"], help="suite: patch/demo/test-suite only; checks: only run the checks (merges into eval.json)")
     a = ap.parse_args()
     for cid in a.ids:
         d = os.path.join(SEED, cid)
         pid = cid.split("_")[0]
         out = {"id": cid, "property": pid}
-        if a.phase == "checks" and os.path.exists(os.path.join(d, "eval.json")):
+        if a.phase in ("checks", "noml") and os.path.exists(os.path.join(d, "eval.json")):
             out = json.load(open(os.path.join(d, "eval.json")))
         wt = f"/tmp/seed/wt_{cid}_{a.phase}"
         sh(f"git -C /repo worktree remove --force {wt}")
@@ -90,6 +94,21 @@ def main():
                 out["error"] = o[-400:]
                 print(json.dumps(out))
                 continue
+            if a.phase == "noml":
+                miss = out.get("suite_missing") or []
+                if miss and all(m.startswith("test.install.test_no_ml::") for m in miss):
+                    xml = f"/tmp/seed/junit_{cid}_noml.xml"
+                    sh(f"/venv/bin/python -m pytest -q -p no:cacheprovider --timeout=900 --junitxml={xml} test/install/test_no_ml.py test/unit/adversarial/test_adversarial_mitigation.py "
+                       f"> /tmp/seed/suite_{cid}_noml.log 2>&1", cwd=wt, env=dict(os.environ, PYTHONPATH=wt), timeout=3600)
+                    ok_ids = set()
+                    for tc in ET.parse(xml).getroot().iter("testcase"):
+                        if not any(ch.tag in ("failure", "error", "skipped") for ch in tc):
+                            ok_ids.add((tc.get("classname", "") + "::" + tc.get("name", "")).replace(" ", ""))
+                    still = [m for m in miss if m not in ok_ids]
+                    out["suite_missing"] = still
+                    out["suite_passes"] = not still
+                    out.setdefault("suite_scope", {})["note"] = ("test_no_library[auto|torch] re-run together with test/unit/adversarial/test_adversarial_mitigation.py "
+                                                                 "(they pass only in a session that collected that module - also on the unmodified tree)")
             if a.phase in ("all", "suite"):
                 rc, o = sh(f"/venv/bin/python -c 'import fairlearn, fairlearn.metrics, fairlearn.reductions, fairlearn.postprocessing, fairlearn.preprocessing, fairlearn.adversarial'", env=dict(os.environ, PYTHONPATH=wt), cwd=wt)
                 out["imports"] = rc == 0
